@@ -154,8 +154,9 @@ PROPS['C06'] = dict(
             D('RouterLifecycle', 'MCRouterLifecycle_mut_waits.cfg', expect='fail', violates='Graceful'),
             D('RouterLifecycle', 'MCRouterLifecycle_mut_handleclose.cfg', expect='fail', violates='SubClosedAtEnd'),
             D('RouterLifecycle', 'MCRouterLifecycle_mut_secondclose.cfg', expect='fail', violates='Graceful')],
-    traces={'RouterCloseTrace': dict(module='RouterCloseTrace', cfg='RouterCloseTrace.cfg')},
-    selftests=[('RouterCloseTrace', 'drop', dict(e='hend'))],
+    traces={'RouterCloseTrace': dict(module='RouterCloseTrace', cfg='RouterCloseTrace.cfg'),
+            'RouterLifecycleImplTrace': dict(module='RouterLifecycleImplTrace', cfg='RouterLifecycleImplTrace.cfg', timeout=1800)},
+    selftests=[('RouterCloseTrace', 'drop', dict(e='hend')), ('RouterLifecycleImplTrace', 'drop', dict(e='hook', point='router.run.dispatched'))],
     rule='runs = message m1 parked at each point of its path (inside the subscriber decorator, received-not-dispatched, dispatched-not-started, inside the handler, '
          'before publish, before settlement) when Close arrives x {scripted subscriber, GoChannel} x closers {1 (2, 8)} x handlers {1 (2, 3)}, the received-then-held '
          'schedule of the concurrent-waits defect, concurrent and repeated Close, handlers outliving CloseTimeout (with a second Close while the handler still runs) and '
